@@ -45,9 +45,11 @@ def _expand_branch(mol_graph, current, anchor, recipe):
     for bdx, (n_mon, attributes, order) in enumerate(recipe):
         if bdx == 0:
             anchor = current
-        for _ in range(0, n_mon):
+        for idx in range(0, n_mon):
             mol_graph.add_node(current, **attributes)
-            mol_graph.add_edge(prev_node, current, order=order)
+            # copies of an expanded node are connected by the default
+            # bond order; order refers to the bond to the previous node
+            mol_graph.add_edge(prev_node, current, order=order if idx == 0 else 1)
 
             prev_node = current
             current += 1
